@@ -7,7 +7,8 @@
    Only statements here; each is closed by [exact] of a lemma of C13_ProofsNum.v and
    followed by Print Assumptions. *)
 
-From Gogu Require Import Base C13_ModelNum C13_ProofsNum.
+From Gogu Require Import Base C13_Model C13_Proofs C13_ModelNum C13_ProofsNum.
+From Coq Require Import Lia.
 Local Open Scope Z_scope.
 
 (* N[T](NumToString(x)) = x for every x of a signed w-bit type T (math.MinInt included) *)
@@ -45,6 +46,28 @@ Proof.
 Qed.
 Print Assumptions C13_num_to_string_shape.
 
+(* ---- Bound.Enclose (find.go), the bounds test under Nth, called directly (wire 78, 79) ---- *)
+
+(* Bound{lo,hi}.Enclose(n) says lo <= |n| <= hi ... *)
+Theorem C13_enclose_spec : forall lo hi n,
+  enclose lo hi n = true <-> lo <= Z.abs n <= hi.
+Proof.
+  intros lo hi n. unfold enclose. rewrite Bool.andb_true_iff, Z.geb_le, Z.leb_le. lia.
+Qed.
+Print Assumptions C13_enclose_spec.
+
+(* ... and so does the code at a signed w-bit type for every n but the most negative
+   value of the type, whose Abs is itself (negative): there it says lo <= n <= hi *)
+Theorem C13_enclose_w_spec : forall w lo hi n, 0 < w -> - 2 ^ (w - 1) <= n < 2 ^ (w - 1) ->
+  (n <> - 2 ^ (w - 1) -> enclose_w w lo hi n = enclose lo hi n) /\
+  (n = - 2 ^ (w - 1) -> (enclose_w w lo hi n = true <-> lo <= n <= hi)).
+Proof.
+  intros w lo hi n Hw Hn. destruct (abs_w_spec w n Hw Hn) as [H1 H2]. unfold enclose_w, enclose. split; intros H.
+  - rewrite (H1 H). reflexivity.
+  - rewrite (H2 H). rewrite Bool.andb_true_iff, Z.geb_le, Z.leb_le. lia.
+Qed.
+Print Assumptions C13_enclose_w_spec.
+
 (* non-vacuity: the codec on concrete texts, the limits of int8 / int64, the rejected shapes *)
 Example C13_num_examples :
   num_to_string 0 = [48] /\ num_to_string (-128) = [45; 49; 50; 56] /\
@@ -56,5 +79,6 @@ Example C13_num_examples :
   n_signed 8 [49; 95; 48] = Err 1 /\ n_signed 8 [43; 45; 49] = Err 1 /\
   n_unsigned 8 [50; 53; 53] = Ok 255 /\ n_unsigned 8 [50; 53; 54] = Err 1 /\
   n_unsigned 8 [43; 49] = Err 1 /\ n_unsigned 8 [45; 48] = Err 1 /\
-  n_signed 64 (num_to_string (- 2 ^ 63)) = Ok (- 2 ^ 63) /\ n_signed 64 (num_to_string (2 ^ 63)) = Err 1.
+  n_signed 64 (num_to_string (- 2 ^ 63)) = Ok (- 2 ^ 63) /\ n_signed 64 (num_to_string (2 ^ 63)) = Err 1 /\
+  enclose 0 3 (-3) = true /\ enclose 1 3 0 = false /\ enclose_w 8 0 127 (-128) = false /\ enclose_w 8 (-128) 0 (-128) = true.
 Proof. repeat split; vm_compute; reflexivity. Qed.
